@@ -25,6 +25,7 @@ mod c04;
 mod c05;
 mod c09;
 mod c10;
+mod c15;
 mod c17;
 mod clonechecks;
 mod clonelab;
@@ -60,12 +61,33 @@ fn main() {
     std::env::set_var("SSL_CERT_DIR", "/nonexistent");
     match args[1].as_str() {
         "sched-worker" => subjects::worker_main(&args[2..]),
+        "iso-job" => {
+            // vh iso-job <kind> <tier> <job>: run one isolated job in this process (debug / replay)
+            let thorough = args[3] == "thorough";
+            let job: usize = args[4].parse().unwrap();
+            let mut agg = rep::Agg::default();
+            let t0 = std::time::Instant::now();
+            match args[2].as_str() {
+                "c04" => c04::IsoCtx::new(thorough).run_job(job, &mut agg),
+                "c15" => {
+                    let ctx = c15::IsoCtx::new(thorough);
+                    println!("job {job}: {}", ctx.describe(job));
+                    ctx.run_job(job, &mut agg)
+                }
+                _ => usage(),
+            }
+            println!("finished in {:.2}s; classes: {:?}; counters: {:?}", t0.elapsed().as_secs_f64(), agg.classes.keys().collect::<Vec<_>>(), agg.counters);
+        }
         "iso-worker" => {
             let wa = isolate::parse_worker_args(&args[2..]);
             let thorough = wa.tier == "thorough";
             match wa.kind.as_str() {
                 "c04" => {
                     let ctx = c04::IsoCtx::new(thorough);
+                    isolate::worker_loop(wa.njobs, wa.offset, wa.stride, wa.start, &wa.skip, &wa.ckpt, &wa.progress, 6, |j, agg| ctx.run_job(j, agg));
+                }
+                "c15" => {
+                    let ctx = c15::IsoCtx::new(thorough);
                     isolate::worker_loop(wa.njobs, wa.offset, wa.stride, wa.start, &wa.skip, &wa.ckpt, &wa.progress, 6, |j, agg| ctx.run_job(j, agg));
                 }
                 k => {
@@ -112,6 +134,7 @@ fn main() {
                 "C17" => c17::run(&mut rep),
                 "C04" => c04::run(&mut rep),
                 "C05" => c05::run(&mut rep),
+                "C15" => c15::run(&mut rep),
                 "C07" => netchecks::c07(&mut rep),
                 "C08" => netchecks::c08(&mut rep),
                 "C02" => clonechecks::c02(&mut rep),
@@ -136,6 +159,7 @@ fn main() {
                 "C17" => c17::replay(&detail),
                 "C04" => c04::replay(&detail),
                 "C05" => c05::replay(&detail),
+                "C15" => c15::replay(&detail),
                 "C01" | "C11" | "C12" => c01::replay(&id, &detail),
                 "C02" | "C03" | "C06" | "C13" => clonechecks::replay(&id, &detail),
                 _ => {
